@@ -35,15 +35,18 @@ Over(K) ==
 NB == <<"gcall", <<C>>>>
 Ladders == { <<"tern", C, C, <<"tern", NB, C, C>>>>, <<"tern", C, <<"tern", NB, C, C>>, C>>, <<"tern", C, C, <<"tern", C, C, <<"tern", NB, C, C>>>>>>,
              <<"tern", C, C, <<"tern", C, <<"tern", NB, C, C>>, C>>>>, <<"tern", <<"tern", C, NB, C>>, C, C>>, <<"list", <<C, <<"tern", C, C, <<"tern", NB, C, C>>>>>>>> }
+\* an operator application that fails in the middle of a chain: nothing to its right runs
+FChains == { <<"calc", <<"fcalc", C, C>>, C>>, <<"fcalc", <<"fcalc", C, C>>, C>>, <<"calc", C, <<"fcalc", C, C>>>>, <<"list", <<C, <<"calc", <<"fcalc", C, C>>, C>>, C>>>>,
+             <<"gcall", <<<<"fcalc", C, C>>, C>>>>, <<"map", <<<<<<"fcalc", C, C>>, C>>>>>>, <<"tern", <<"fcalc", C, C>>, C, C>> }
 Shapes == IF Depth = 1 THEN {C, <<"var">>} \cup Over(Kids1) \cup {<<"map", <<<<C, C>>, <<C, C>>>>>>, <<"stmt", <<>>>>, <<"stmt", <<C, C, C>>>>}
-          ELSE Ladders \cup Over(Kids2) \cup {<<"stmt", <<a, b, c>>>> : a \in {C, <<"set", C>>}, b \in Kids2, c \in {C, <<"var">>, <<"tern", C, C, C>>}}
+          ELSE Ladders \cup FChains \cup Over(Kids2) \cup {<<"stmt", <<a, b, c>>>> : a \in {C, <<"set", C>>}, b \in Kids2, c \in {C, <<"var">>, <<"tern", C, C, C>>}}
 RECURSIVE Size(_), SizeSeq(_)
 SizeSeq(s) == IF s = <<>> THEN 0 ELSE Size(Head(s)) + SizeSeq(Tail(s))
 Size(t) ==
   CASE t[1] = "c" -> 1
     [] t[1] = "var" -> 0
     [] t[1] \in {"un", "post", "set", "cset", "setbad", "unk", "setfn", "uun", "upost", "uset"} -> Size(t[2])
-    [] t[1] \in {"calc", "ucalc"} -> Size(t[2]) + Size(t[3])
+    [] t[1] \in {"calc", "ucalc", "fcalc"} -> Size(t[2]) + Size(t[3])
     [] t[1] \in {"tern", "inlist"} -> Size(t[2]) + Size(t[3]) + Size(t[4])
     [] t[1] \in {"list", "stmt", "gcall", "unkcall", "varcall"} -> SizeSeq(t[2])
     [] t[1] = "map" -> SizeSeq([i \in 1..2 * Len(t[2]) |-> t[2][(i + 1) \div 2][IF i % 2 = 1 THEN 1 ELSE 2]])
@@ -57,6 +60,7 @@ Build(t, base, mode) ==
     [] t[1] = "un" -> <<"un", "!", Build(t[2], base, mode)>>
     [] t[1] = "post" -> <<"post", Build(t[2], base, mode), "++">>
     [] t[1] = "calc" -> <<"bin", "&&", Build(t[2], base, mode), Build(t[3], base + Size(t[2]), mode)>>
+    [] t[1] = "fcalc" -> <<"bin", "-", Build(t[2], base, mode), Build(t[3], base + Size(t[2]), mode)>>   \* `-` on booleans: the OPERATOR fails, after both operands ran
     [] t[1] = "set" -> <<"bin", "=", <<"ref", "x">>, Build(t[2], base, mode)>>
     [] t[1] = "cset" -> <<"bin", "+=", <<"ref", "x">>, Build(t[2], base, mode)>>
     [] t[1] = "setbad" -> <<"bin", "=", <<"lit", VInt(1)>>, Build(t[2], base, mode)>>
@@ -151,7 +155,17 @@ DupProgs(mode) == LET A == Leaf(1, mode)  B == Leaf(2, mode)  RA == <<"ref", NAM
      <<"call", NAME[1], <<<<"bin", "=", RA, <<"lit", VBool(TRUE)>>>>>>>>, <<"call", NAME[1], <<B, <<"bin", "=", RA, B>>>>>> >>
 DupInit == \E mode \in LeafModes, k \in 1..11, script \in Scripts(2), fault \in {NoFault} \cup {<<j, "err">> : j \in 1..4} \cup {<<2, "panic">>} :
              Start(EnvOf(2, script, fault), DupProgs(mode)[k], CtxOf(2))
-Init == IF Family = "assign" THEN AssignInit ELSE IF Family = "dispatch" THEN DispatchInit ELSE IF Family = "dup" THEN DupInit ELSE ShapeInit
+\* ---- C03: the conditional is an operator too - its value is the selected branch's, and the other branch does not exist for it ------
+LI(k) == <<"lit", VInt(k)>>
+DivZero == <<"bin", "/", LI(1), LI(0)>>
+CondProgs == << <<"tern", <<"lit", VBool(TRUE)>>, LI(1), DivZero>>, <<"tern", <<"lit", VBool(FALSE)>>, DivZero, LI(2)>>,
+                <<"tern", <<"bin", "==", <<"ref", "d">>, LI(0)>>, LI(0), <<"bin", "/", LI(100), <<"ref", "d">>>>>>,
+                <<"stmt", <<<<"tern", <<"lit", VBool(TRUE)>>, <<"bin", "=", <<"ref", "a">>, LI(1)>>, <<"bin", "=", <<"ref", "a">>, LI(2)>>>>, <<"ref", "a">>>>>>,
+                <<"tern", <<"bin", ">", <<"ref", "d">>, LI(10)>>, DivZero, <<"tern", <<"bin", ">", <<"ref", "d">>, LI(-1)>>, <<"lit", VStr(<<109>>)>>, DivZero>>>>,
+                <<"tern", <<"bin", "==", <<"ref", "n">>, <<"none">>>>, LI(0), <<"bin", "+", <<"ref", "n">>, LI(1)>>>>,
+                <<"tern", LI(1), LI(2), LI(3)>>, <<"tern", <<"none">>, LI(2), LI(3)>> >>
+CondInit == \E k \in 1..Len(CondProgs) : Start(AssignEnv(NoFault), CondProgs[k], ("d" :> <<"var", VInt(0)>>))
+Init == IF Family = "cond" THEN CondInit ELSE IF Family = "assign" THEN AssignInit ELSE IF Family = "dispatch" THEN DispatchInit ELSE IF Family = "dup" THEN DupInit ELSE ShapeInit
 VALToJson(st, v) == IF st = "ok" THEN v ELSE <<"none">>
 CtxToJson(c) == LET names == {nm \in DOMAIN c : TRUE} IN [nm \in names |-> c[nm]]
 Record == [prog |-> prog, ctx0 |-> CtxToJson(ctx0), handlers |-> [h \in DOMAIN env.handlers |-> env.handlers[h].ret],
